@@ -26,6 +26,35 @@ type c10Item struct {
 	typ string // Integer | Decimal | String | HumanName
 }
 
+// c10SystemValueOf: g is the System value of the FHIR primitive element el (intersect hands back primitives in
+// their System form, which the repository's TestIntersect asserts for FHIR integers)
+func c10SystemValueOf(g any, el any) bool {
+	m, ok := el.(proto.Message)
+	if !ok {
+		return false
+	}
+	if _, isProto := g.(proto.Message); isProto {
+		return false
+	}
+	sv, err := system.From(m)
+	return err == nil && lib.Show(sv) == lib.Show(g)
+}
+
+// c10FHIRAlphabet: FHIR primitive elements equal as values but different as messages, next to System values
+func c10FHIRAlphabet() []c10Item {
+	withID := fhir.String("a")
+	withID.Id = fhir.String("g1")
+	return []c10Item{
+		{"f.a", fhir.String("a"), "a", "String"},
+		{"f.a+id", withID, "a", "String"},
+		{"s.a", system.String("a"), "a", "String"},
+		{"f.b", fhir.String("b"), "b", "String"},
+		{"f.1.0", &dtpb.Decimal{Value: "1.0"}, "num1", "Decimal"},
+		{"f.1.00", &dtpb.Decimal{Value: "1.00"}, "num1", "Decimal"},
+		{"s.1", system.Integer(1), "num1", "Integer"},
+	}
+}
+
 func c10Alphabet() []c10Item {
 	return []c10Item{
 		{"i1", system.Integer(1), "num1", "Integer"},
@@ -241,6 +270,98 @@ func init() {
 			}
 			nColl := c10Count(K, maxLen)
 			nPair := c10Count(K, pairLen)
+			setCase := func(r *core.Rec, c, d []c10Item) {
+				env := c10Env(c)
+				dv := make(system.Collection, len(d))
+				dcls := map[string]bool{}
+				for j, it := range d {
+					dv[j] = it.v
+					dcls[it.cls] = true
+				}
+				env["d"] = dv
+				overlap := "disjoint"
+				var wantEx []any
+				inter := map[string]bool{}
+				for _, it := range c {
+					if dcls[it.cls] {
+						overlap = "overlap"
+						inter[it.cls] = true
+					} else {
+						wantEx = append(wantEx, it.v)
+					}
+				}
+				cl := lenClass(len(c)) + "," + lenClass(len(d))
+				r.State("sets|" + cl + "|" + overlap)
+				w := core.W{"c": c10Ids(c), "d": c10Ids(d)}
+				rx := run(r, "%c.exclude(%d)", env, nil)
+				r.Outcome("exclude|" + rx.Class())
+				r.Nontrivial("exclude", c10Ids(c), c10Ids(d), rx.String())
+				if r.WantSample() {
+					r.Sample(core.W{"c": c10Ids(c), "d": c10Ids(d), "exclude": rx.String()})
+				}
+				c10NoNil(r, "exclude", rx, w)
+				if !(rx.OK() && c10SameSeq(rx.Coll, wantEx)) {
+					kind := "wrong-items"
+					if rx.OK() && len(rx.Coll) > len(wantEx) {
+						kind = "extra-items"
+					}
+					argExtra := "d-subset-of-c"
+					for _, it := range d {
+						in := false
+						for _, ci := range c {
+							if ci.cls == it.cls {
+								in = true
+							}
+						}
+						if !in {
+							argExtra = "d-has-items-not-in-c"
+						}
+					}
+					r.Fail(c10Key("exclude", cl, overlap, argExtra, kind, c10Disc(rx)), core.W{"c": c10Ids(c), "d": c10Ids(d), "got": rx.String(), "want": lib.ShowColl(wantEx)})
+				}
+				ri := run(r, "%c.intersect(%d)", env, nil)
+				r.Outcome("intersect|" + ri.Class())
+				r.Nontrivial("intersect", c10Ids(c), c10Ids(d), ri.String())
+				c10NoNil(r, "intersect", ri, w)
+				okI := ri.OK() && len(ri.Coll) == len(inter)
+				itemKinds := map[string]bool{}
+				if okI {
+					seen := map[string]bool{}
+					for _, g := range ri.Coll {
+						found := ""
+						for _, it := range c {
+							if inter[it.cls] && (c10Same(g, it.v) || c10SystemValueOf(g, it.v)) {
+								found = it.cls
+								break
+							}
+						}
+						if found == "" || seen[found] {
+							okI = false
+						}
+						seen[found] = true
+					}
+				}
+				for _, it := range c {
+					if inter[it.cls] {
+						if it.typ == "HumanName" {
+							itemKinds["complex"] = true
+						} else {
+							itemKinds["system"] = true
+						}
+					}
+				}
+				if !okI {
+					ik := "none"
+					if itemKinds["complex"] && itemKinds["system"] {
+						ik = "mixed"
+					} else if itemKinds["complex"] {
+						ik = "complex"
+					} else if itemKinds["system"] {
+						ik = "system"
+					}
+					r.Fail(c10Key("intersect", cl, overlap, "common="+ik, c10Disc(ri)), core.W{"c": c10Ids(c), "d": c10Ids(d), "got": ri.String(), "want": fmt.Sprintf("duplicate-free items of c from %d common classes", len(inter))})
+				}
+			}
 			return []core.Sub{
 				{Name: "criteria", N: nColl, Note: fmt.Sprintf("all %d collections of length <=%d x 13 criteria x {where, exists, all, select}", nColl, maxLen), Run: func(i int, r *core.Rec) {
 					c := decode(i)
@@ -497,98 +618,20 @@ func init() {
 						r.Fail(c10Key("isDistinct", dupClass, lenClass(L), c10Disc(ri)), core.W{"c": c10Ids(c), "isDistinct": ri.String(), "count()=distinct().count()": rdc.String(), "want": len(classes) == L})
 					}
 				}},
+				{Name: "set-functions-fhir-primitives", N: c10Count(len(c10FHIRAlphabet()), 2) * c10Count(len(c10FHIRAlphabet()), 2), Note: "the same over FHIR primitive elements that are equal as values but not as messages (a string with and without an element id, decimals 1.0 / 1.00) mixed with System values, collections of length <=2", Run: func(i int, r *core.Rec) {
+					al := c10FHIRAlphabet()
+					n := c10Count(len(al), 2)
+					dec := func(k int) []c10Item {
+						var out []c10Item
+						for _, x := range c10Seq(k, len(al)) {
+							out = append(out, al[x])
+						}
+						return out
+					}
+					setCase(r, dec(i/n), dec(i%n))
+				}},
 				{Name: "set-functions", N: nPair * nPair, Note: fmt.Sprintf("all ordered pairs of collections of length <=%d (%d^2) x {exclude, intersect}", pairLen, nPair), Run: func(i int, r *core.Rec) {
-					c, d := decode(i/nPair), decode(i%nPair)
-					env := c10Env(c)
-					dv := make(system.Collection, len(d))
-					dcls := map[string]bool{}
-					for j, it := range d {
-						dv[j] = it.v
-						dcls[it.cls] = true
-					}
-					env["d"] = dv
-					overlap := "disjoint"
-					var wantEx []any
-					inter := map[string]bool{}
-					for _, it := range c {
-						if dcls[it.cls] {
-							overlap = "overlap"
-							inter[it.cls] = true
-						} else {
-							wantEx = append(wantEx, it.v)
-						}
-					}
-					cl := lenClass(len(c)) + "," + lenClass(len(d))
-					r.State("sets|" + cl + "|" + overlap)
-					w := core.W{"c": c10Ids(c), "d": c10Ids(d)}
-					rx := run(r, "%c.exclude(%d)", env, nil)
-					r.Outcome("exclude|" + rx.Class())
-					r.Nontrivial("exclude", c10Ids(c), c10Ids(d), rx.String())
-					if r.WantSample() {
-						r.Sample(core.W{"c": c10Ids(c), "d": c10Ids(d), "exclude": rx.String()})
-					}
-					c10NoNil(r, "exclude", rx, w)
-					if !(rx.OK() && c10SameSeq(rx.Coll, wantEx)) {
-						kind := "wrong-items"
-						if rx.OK() && len(rx.Coll) > len(wantEx) {
-							kind = "extra-items"
-						}
-						argExtra := "d-subset-of-c"
-						for _, it := range d {
-							in := false
-							for _, ci := range c {
-								if ci.cls == it.cls {
-									in = true
-								}
-							}
-							if !in {
-								argExtra = "d-has-items-not-in-c"
-							}
-						}
-						r.Fail(c10Key("exclude", cl, overlap, argExtra, kind, c10Disc(rx)), core.W{"c": c10Ids(c), "d": c10Ids(d), "got": rx.String(), "want": lib.ShowColl(wantEx)})
-					}
-					ri := run(r, "%c.intersect(%d)", env, nil)
-					r.Outcome("intersect|" + ri.Class())
-					r.Nontrivial("intersect", c10Ids(c), c10Ids(d), ri.String())
-					c10NoNil(r, "intersect", ri, w)
-					okI := ri.OK() && len(ri.Coll) == len(inter)
-					itemKinds := map[string]bool{}
-					if okI {
-						seen := map[string]bool{}
-						for _, g := range ri.Coll {
-							found := ""
-							for _, it := range c {
-								if inter[it.cls] && c10Same(g, it.v) {
-									found = it.cls
-									break
-								}
-							}
-							if found == "" || seen[found] {
-								okI = false
-							}
-							seen[found] = true
-						}
-					}
-					for _, it := range c {
-						if inter[it.cls] {
-							if it.typ == "HumanName" {
-								itemKinds["complex"] = true
-							} else {
-								itemKinds["system"] = true
-							}
-						}
-					}
-					if !okI {
-						ik := "none"
-						if itemKinds["complex"] && itemKinds["system"] {
-							ik = "mixed"
-						} else if itemKinds["complex"] {
-							ik = "complex"
-						} else if itemKinds["system"] {
-							ik = "system"
-						}
-						r.Fail(c10Key("intersect", cl, overlap, "common="+ik, c10Disc(ri)), core.W{"c": c10Ids(c), "d": c10Ids(d), "got": ri.String(), "want": fmt.Sprintf("duplicate-free items of c from %d common classes", len(inter))})
-					}
+					setCase(r, decode(i/nPair), decode(i%nPair))
 				}},
 				{Name: "resource-paths", N: len(c10Paths), Note: "path-derived collections (primitive, complex, mixed, duplicates) x relational equations x extension(url)", Run: func(i int, r *core.Rec) {
 					p := c10Paths[i]
@@ -746,7 +789,17 @@ var c10Paths = func() []c10Path {
 	obs := func() fhir.Resource { return lib.Observation() }
 	qst := func() fhir.Resource { return lib.Questionnaire() }
 	bun := func() fhir.Resource { return lib.Bundle() }
-	urls := []string{"http://u", "http://v", "http://none"}
+	urls := []string{"http://u", "http://v", "http://none", ""}
+	// a Patient whose extensions include ones without a url element and with an empty url
+	pex := func() fhir.Resource {
+		p := lib.Patient()
+		p.Extension = append(p.Extension, &dtpb.Extension{Value: &dtpb.Extension_ValueX{Choice: &dtpb.Extension_ValueX_StringValue{StringValue: fhir.String("orphan")}}}, &dtpb.Extension{Url: fhir.URI("")},
+			&dtpb.Extension{Url: fhir.URI("http://u"), Value: &dtpb.Extension_ValueX{Choice: &dtpb.Extension_ValueX_Boolean{Boolean: fhir.Boolean(true)}}})
+		if p.BirthDate != nil {
+			p.BirthDate.Extension = append(p.BirthDate.Extension, &dtpb.Extension{Value: &dtpb.Extension_ValueX{Choice: &dtpb.Extension_ValueX_StringValue{StringValue: fhir.String("orphan")}}}, &dtpb.Extension{Url: fhir.URI("http://v")})
+		}
+		return p
+	}
 	// criteria that yield FHIR boolean *elements* (not System Booleans), including false ones
 	patc := func() fhir.Resource {
 		p := lib.PatientWith(lib.B(false), lib.B(true))
@@ -760,6 +813,9 @@ var c10Paths = func() []c10Path {
 		{patc, "Patient.communication", []string{"preferred", "preferred.not()", "preferred = false", "language.exists()"}, nil},
 		{patc, "Patient.communication.preferred", []string{"$this", "$this.not()", "$this = true"}, nil},
 		{pat, "Patient", []string{"active", "active.not()", "name.exists()"}, urls},
+		{pex, "Patient", []string{"extension.exists()"}, urls},
+		{pex, "Patient.birthDate", []string{"extension.exists()"}, urls},
+		{pex, "Patient.extension", []string{"url.exists()", "url = ''", "url.empty()"}, urls},
 		{pat, "Patient.name", []string{"use = 'official'", "family = 'Jones'", "given.count() > 1", "family.exists()", "period.exists()"}, urls},
 		{pat, "Patient.name.given", []string{"$this = 'Ann'", "$this.length() > 2", "$this is string"}, urls},
 		{pat, "Patient.name.family", []string{"$this = 'Smith'"}, nil},
